@@ -107,16 +107,15 @@ Section Pass.
 
   (* custom_ops.rs:551 create_from_node, on every custom node of a graph / a context, in
      graph order then node order (the loops at :635-637 and :685-687) *)
-  Definition graph_keys (g : graph) : result (list key) :=
-    let fix go (ns : list node) : result (list key) :=
-      match ns with
-      | [] => Ok []
-      | NCustom o deps _ :: r =>
-          let* tys := dep_types (g_nodes g) deps in
-          let* ks := go r in Ok ((o, tys) :: ks)
-      | _ :: r => go r
-      end in
-    go (g_nodes g).
+  Fixpoint nodes_keys (G ns : list node) : result (list key) :=
+    match ns with
+    | [] => Ok []
+    | NCustom o deps _ :: r =>
+        let* tys := dep_types G deps in
+        let* ks := nodes_keys G r in Ok ((o, tys) :: ks)
+    | _ :: r => nodes_keys G r
+    end.
+  Definition graph_keys (g : graph) : result (list key) := nodes_keys (g_nodes g) (g_nodes g).
   Definition ctx_keys (c : ctx) : result (list key) :=
     let* kss := mapM graph_keys (c_graphs c) in Ok (List.concat kss).
 
